@@ -561,6 +561,10 @@ func (it *Iterator) Close() {
 	}
 	waitFor(it.waste)
 	waitFor(it.data)
+	// The item the iterator stands on is in neither list.
+	if it.item != nil {
+		it.item.wg.Wait()
+	}
 
 	// TODO: We could handle this error.
 	_ = it.txn.db.vlog.decrIteratorCount()
